@@ -19,7 +19,8 @@ thread_local! {
 /// `(file, op, pos, bytes)` with `file` in {"data", "wal"} and `op` in
 /// {"write", "append", "set_len"} (for `set_len`, `pos` is the new length).
 /// `("data", "read_locked", pos, [])` is reported while the shared read
-/// handle's mutex is held.
+/// handle's mutex is held and `("data", "read_seeked", pos, [])` between the
+/// seek and the read of every `read_impl`.
 pub fn set_fs_hook(hook: Option<FsHook>) {
     FS_HOOK.with(|h| *h.borrow_mut() = hook);
 }
